@@ -32,14 +32,14 @@ fn gen_base(t: &mut Tape) -> Scenario {
         EP_LZMA | EP_STREAM => {
             // the streaming decoder hands bytes to the sink during write() only when
             // its window wraps: a third of its inputs span several windows
-            let b = if ep == EP_STREAM && t.below(3) == 0 { gen_lzma(t, 0, 20_000) } else { gen_lzma(t, 0, 1200) };
+            // (the one-shot decoder likewise writes at every wrap)
+            let b = if t.below(3) == 0 { gen_lzma(t, 0, 20_000) } else { gen_lzma(t, 0, 1200) };
             // all three header options
             opts.mode = t.below(3);
-            if ep == EP_STREAM {
-                // a third of the Stream runs allow incomplete input (finish then skips
-                // its last decode pass: the sink may lack the look-ahead tail, see C15/C16)
-                opts.allow_incomplete = t.below(3) == 0;
-            }
+            // a third of the runs allow incomplete input: Stream's finish then skips
+            // its last decode pass (the sink may lack the look-ahead tail, see C15/C16);
+            // the one-shot decoder does not know the option, for it nothing changes
+            opts.allow_incomplete = t.below(3) == 0;
             let input = match opts.mode {
                 0 => b.std_file(),
                 1 => {
